@@ -4,6 +4,9 @@ let channels : (string * ((string * string) list -> string)) list = [
   ("art", Chan_art.run);
   ("flags", Chan_flags.run_flags);
   ("jprops", Chan_flags.run_jprops);
+  ("split", Chan_split.run_split);
+  ("ranges", Chan_split.run_ranges false);
+  ("chunks", Chan_split.run_ranges true);
 ]
 
 let () =
